@@ -116,6 +116,69 @@ def StartsFrom (X : Ix → K) (x : Ix → Signal K) : Prop := ∀ ix, pre0 (x ix
 /-- constant whole-axis signals: the steady state `X` continued for all t -/
 def constSignals (X : Ix → K) : Ix → Signal K := fun ix => ⟨[(X ix, 0, 0)], [.ep (X ix) 0 0 0]⟩
 
+/-! ### the decision procedure as the driver runs it (`td.laws`): rewrites + checks in ONE function, proved sound
+    (`C02.tdCheck_sound`: verdict `ok` ⇒ `LawsTFormal` of the time-domain problem `tdProblem` it is decided on) -/
+
+/-- every node a component is attached to -/
+def nodesOf : Cpt K → List Nat
+  | .R a b _ => [a, b] | .Cap a b _ _ => [a, b] | .Ind a b _ _ _ _ => [a, b] | .V a b _ _ => [a, b] | .I a b _ => [a, b]
+  | .E a b c d _ _ _ => [a, b, c, d] | .G a b c d _ => [a, b, c, d] | .F a b _ _ => [a, b] | .H a b _ _ _ => [a, b]
+  | .TF a b c d _ _ => [a, b, c, d] | .GY a b c d _ _ _ => [a, b, c, d] | .AM a b _ => [a, b] | .TR a b _ _ => [a, b]
+  | .Y a b _ => [a, b] | .Open a b => [a, b] | .TPA a b c d _ _ _ _ _ => [a, b, c, d] | .TPY a b c d _ _ _ _ => [a, b, c, d]
+  | .SP a b c d _ _ _ _ => [a, b, c, d] | .HY a b _ c d _ _ _ _ => [a, b, c, d]
+
+/-- all components are attached to nodes `< n` only (so KCL at the nodes `≥ n` is the empty statement) -/
+def nodesBelow (n : Nat) (tcs : List (TCpt K)) : Bool := tcs.all (fun c => (nodesOf c.1).all (fun a => decide (a < n)))
+
+/-- TIME-DOMAIN READING OF A CCVS CONTROLLED BY A CAPACITOR.  The front-end describes `H1 a b C1 h` by `Cpt.HY` with the
+    admittance of the controlling element AT THE POINT s (for a capacitor y = s·C, isc = C·v0): an s-domain description.
+    In the time domain the control current is `C·D v`; it is expressed with the existing components by the electrically
+    identical circuit "capacitor in series with an ideal ammeter that carries the control branch":
+        C1 n3 n4 c v0 ; H1 n1 n2 C1 h     ↦     C1 n3 k c v0 ; AM k n4 (branch of C1) ; H n1 n2 (controlled by that branch)
+    with a fresh node `k` whose voltage signal is that of `n4` (so the ammeter law holds by construction and KCL at `k`
+    says: control current = i_C = C·D v seen from v0).  `HY` controlled by R or Y (constant conductance) is left as is.
+    `brs` are the branch names of the front-end (a capacitor's name starts with `C`).  Returns the netlist, the signals and
+    the number of fresh nodes. -/
+def capControl (brs : List String) (nNodes : Nat) (tcs : List (String × TCpt K)) (x : Ix → Signal K) :
+    List (String × TCpt K) × (Ix → Signal K) × Nat :=
+  tcs.foldl (fun (acc : List (String × TCpt K) × (Ix → Signal K) × Nat) (nc : String × TCpt K) =>
+    let (cur, xx, extra) := acc
+    match nc.2.1 with
+    | .HY n1 n2 m _ _ mc _ _ h =>
+      let cn := brs.getD mc ""
+      if cn.startsWith "C" then
+        match cur.find? (fun q => q.1 = cn) with
+        | some (_, (.Cap a b c v0, w)) =>
+          let k := nNodes + extra
+          let vb : Signal K := voltT xx b
+          let cur' := cur.map (fun q =>
+            if q.1 = cn then (cn, ((Cpt.Cap a k c v0 : Cpt K), w))
+            else if q.1 = nc.1 then (nc.1, ((Cpt.H n1 n2 m mc h : Cpt K), nc.2.2)) else q)
+          (cur' ++ [(cn ++ "_ammeter", ((Cpt.AM k b mc : Cpt K), (⟨[], []⟩ : Signal K)))],
+           (fun ix => if ix = Ix.node k then vb else xx ix), extra + 1)
+        | _ => acc
+      else acc
+    | _ => acc) (tcs, x, 0)
+
+/-- `smooth` reading (the laws on the pre-history t < 0, whose terms are sent as undelayed `ep` items): initial conditions
+    dropped (`clearIC`), every signal's pre-history replaced by its own value at 0⁺, so that no state variable jumps -/
+def smoothSignals (x : Ix → Signal K) : Ix → Signal K := fun ix => let sg := x ix; ⟨[(val0plus sg.post, 0, 0)], sg.post⟩
+
+/-- the time-domain problem `td.laws` is decided on: (netlist, signals, number of nodes) -/
+def tdProblem (smooth : Bool) (brs : List String) (nNodes : Nat) (tcs : List (String × TCpt K)) (x : Ix → Signal K) :
+    List (String × TCpt K) × (Ix → Signal K) × Nat :=
+  let r := capControl brs nNodes tcs x
+  if smooth then (r.1.map (fun c => (c.1, (clearIC c.2.1, c.2.2))), smoothSignals r.2.1, nNodes + r.2.2)
+  else (r.1, r.2.1, nNodes + r.2.2)
+
+/-- what the driver runs for `td.laws`: `none` = the problem is refused (inconsistent coupling records, or a component on
+    a node outside `0 … n−1`), otherwise the verdict of `checkLawsT` on `tdProblem` -/
+def tdCheck (smooth : Bool) (brs : List String) (nNodes : Nat) (tcs : List (String × TCpt K)) (x : Ix → Signal K) :
+    Option (VerdictT K) :=
+  let p := tdProblem smooth brs nNodes tcs x
+  let cs := p.1.map (fun c => c.2)
+  if coupConsistent cs && nodesBelow p.2.2 cs then some (checkLawsT cs p.2.1 p.2.2) else none
+
 /-- the model's time response for one unknown: inverse transforms of the partial-fraction data of its
     s-domain value (one `PF` per delay factor) -/
 def response (pfs : List (PF K)) : ExpPoly K := pfs.flatMap ilt
